@@ -16,7 +16,7 @@ RULE = ("pairs (start,end) from the boundary set {m*2^(17+3k)+d : |d|<=2} U {0,2
         "exhaustively x {gff,bed} x {one,set}, random pairs beyond; a pair is non-trivial when an end lies "
         "within +-2 of a bin boundary and its two ends fall in different finest bins (or it is out of range); "
         "distinct = distinct (start,end,fmt,one) / distinct interval pairs for the overlap clause")
-REQUIRED = ["repeated calls after the caller mutated the returned set", "bins of features constructed by gffutils checked",
+REQUIRED = ["debug helpers of the bins module called before further checks", "repeated calls after the caller mutated the returned set", "bins of features constructed by gffutils checked",
             "stored bin after coordinate edit checked", "bins.bins contract evaluations", "overlap pairs checked", "Feature.bin checked", "stored bin column checked"]
 ASSUMPTIONS = [
     "the specification in gvmon/models/binspec.py is a faithful reading of the statement",
@@ -120,7 +120,7 @@ def execute(ctx, case):
         drain(ctx, case)
     elif kind == "feature":
         s, e = case["start"], case["end"]
-        f = gffutils.Feature(seqid="c", start=s, end=e)
+        f = gffutils.Feature(seqid="c", start=s, end=e, strand=case.get("strand", "."))
         expect = B.bins(s, e, one=True)
         ctx.mon("Feature.bin checked")
         why = S.check_one(s, e, f.bin)
@@ -160,7 +160,8 @@ def execute(ctx, case):
     elif kind == "stored":
         # import lines with these coordinates; read the raw bin column back
         coords = case["coords"]
-        lines = ["chr1\tsrc\tgene\t%d\t%d\t.\t+\t.\tID=g%d" % (s, e, i) for i, (s, e) in enumerate(coords)]
+        strands = case.get("strands") or ["+"] * len(coords)
+        lines = ["chr1\tsrc\tgene\t%d\t%d\t.\t%s\t.\tID=g%d" % (s, e, strands[i], i) for i, (s, e) in enumerate(coords)]
         try:
             db = gffutils.create_db("\n".join(lines), ":memory:", from_string=True)
         except Exception as ex:
@@ -277,6 +278,20 @@ def run(ctx):
         one = rng.random() < 0.5
         call_direct(ctx, s, e, fmt, one)
         ctx.case(("call", s, e, fmt, one), nontrivial(s + (1 if fmt == "bed" else 0), e), cls="random call")
+    # 2b. the module's documented debugging helpers are called in between: they must not disturb later answers
+    import contextlib, io
+    from gffutils import bins as B
+    with contextlib.redirect_stdout(io.StringIO()):
+        B.print_bin_sizes()
+        try:
+            B.test()
+        except AssertionError:
+            ctx.violation({"kind": "call", "start": 0, "end": 1, "fmt": "bed", "one": True}, {"why": "gffutils.bins.test() fails"})
+    ctx.mon("debug helpers of the bins module called before further checks")
+    for s, e in ((1, 1), (200000, 200010), (2 ** 17, 2 ** 17 + 1), (2 ** 20 - 3, 2 ** 20 + 3), (5, 2 ** 28)):
+        for fmt in ("gff", "bed"):
+            for one in (True, False):
+                call_direct(ctx, s, e, fmt, one)
     # 3. overlap ("Hence") clause on in-range overlapping / nested intervals
     inr = [v for v in vals if 1 <= v < S.LIMIT]
     for _ in range(ctx.budget(15000, 480000)):
@@ -300,7 +315,7 @@ def run(ctx):
         e = rng.choice(vals) + rng.randrange(-1, 2)
         if s < 0 or e < 0:
             continue  # negative coordinates are not features of the grammar
-        case = {"kind": "feature", "start": s, "end": e}
+        case = {"kind": "feature", "start": s, "end": e, "strand": rng.choice(["+", "-", ".", "-"])}
         execute(ctx, case)
         ctx.case(("feature", s, e), nontrivial(s, e), sample=case, cls="Feature construction")
     # 5. stored bin column
@@ -312,7 +327,7 @@ def run(ctx):
             if rng.random() < 0.8 and s > e:
                 s, e = e, s
             coords.append((s, e))
-        case = {"kind": "stored", "coords": coords}
+        case = {"kind": "stored", "coords": coords, "strands": [rng.choice("+-.") for _ in coords]}
         execute(ctx, case)
         ctx.case(("stored", coords), True, cls="imported boundary features")
     # 6. bin assigned on insert after the coordinates were edited
